@@ -13,6 +13,7 @@ import (
 	"path/filepath"
 	"strings"
 	"sync"
+	"syscall"
 	"time"
 )
 
@@ -37,6 +38,7 @@ const preambleArray = `(set-option :produce-models true)
 (define-fun wfil ((l IL)) Bool (and (>= (illen l) 0)
   (forall ((i Int)) (! (=> (or (< i 0) (>= i (illen l))) (= (select (ints l) i) 0)) :pattern ((select (ints l) i))))))
 (define-fun at ((s Str) (i Int)) Int (select (chars s) i))
+(define-fun nonl ((s Str)) Bool (forall ((i Int)) (! (=> (and (<= 0 i) (< i (slen s))) (not (= (select (chars s) i) 10))) :pattern ((select (chars s) i)))))
 (define-fun sat_ ((l SL) (i Int)) Str (select (items l) i))
 (define-fun appendbyte ((s Str) (b Int)) Str (mkstr (store (chars s) (slen s) b) (+ (slen s) 1)))
 (define-fun appendstr ((l SL) (s Str)) SL (mksl (store (items l) (sllen l) s) (+ (sllen l) 1)))
@@ -44,11 +46,12 @@ const preambleArray = `(set-option :produce-models true)
 (define-fun emptyil () IL (mkil ((as const (Array Int Int)) 0) 0))
 (declare-fun scat (Str Str) Str)
 (assert (forall ((a Str) (b Str)) (! (and (= (slen (scat a b)) (+ (slen a) (slen b)))
+  (=> (and (>= (slen a) 0) (>= (slen b) 0)) (and
   (forall ((i Int)) (! (and (=> (and (<= 0 i) (< i (slen a))) (= (select (chars (scat a b)) i) (select (chars a) i)))
                             (=> (and (<= (slen a) i) (< i (+ (slen a) (slen b)))) (= (select (chars (scat a b)) i) (select (chars b) (- i (slen a)))))
                             (=> (or (< i 0) (>= i (+ (slen a) (slen b)))) (= (select (chars (scat a b)) i) 0)))
      :pattern ((select (chars (scat a b)) i))))
-  (forall ((j Int)) (! (=> (and (<= 0 j) (< j (slen b))) (= (select (chars (scat a b)) (+ (slen a) j)) (select (chars b) j))) :pattern ((select (chars b) j)))))
+  (forall ((j Int)) (! (=> (and (<= 0 j) (< j (slen b))) (= (select (chars (scat a b)) (+ (slen a) j)) (select (chars b) j))) :pattern ((select (chars b) j)))))))
   :pattern ((scat a b)))))
 (declare-fun ssub (Str Int Int) Str)
 (assert (forall ((s Str) (lo Int) (hi Int)) (! (and (= (slen (ssub s lo hi)) (- hi lo))
@@ -65,10 +68,10 @@ const preambleArray = `(set-option :produce-models true)
   :pattern ((slsub s lo hi)))))
 (declare-fun slcat (SL SL) SL)
 (assert (forall ((a SL) (b SL)) (! (and (= (sllen (slcat a b)) (+ (sllen a) (sllen b)))
-  (forall ((i Int)) (! (and (=> (and (<= 0 i) (< i (sllen a))) (= (select (items (slcat a b)) i) (select (items a) i)))
+  (=> (and (>= (sllen a) 0) (>= (sllen b) 0)) (forall ((i Int)) (! (and (=> (and (<= 0 i) (< i (sllen a))) (= (select (items (slcat a b)) i) (select (items a) i)))
                             (=> (and (<= (sllen a) i) (< i (+ (sllen a) (sllen b)))) (= (select (items (slcat a b)) i) (select (items b) (- i (sllen a)))))
                             (=> (or (< i 0) (>= i (+ (sllen a) (sllen b)))) (= (select (items (slcat a b)) i) emptystr)))
-     :pattern ((select (items (slcat a b)) i)))))
+     :pattern ((select (items (slcat a b)) i))))))
   :pattern ((slcat a b)))))
 (define-fun gomod ((a Int) (b Int)) Int (ite (>= a 0) (mod a (ite (>= b 0) b (- b))) (- (mod (- a) (ite (>= b 0) b (- b))))))
 (define-fun godiv ((a Int) (b Int)) Int (ite (>= a 0) (ite (> b 0) (div a b) (- (div a (- b)))) (ite (> b 0) (- (div (- a) b)) (div (- a) (- b)))))
@@ -152,6 +155,8 @@ func solveCtx(parent context.Context, text string, solvers []solverSpec, timeout
 			args := append([]string{}, s.args[1:]...)
 			args = append(args, file)
 			cmd := exec.CommandContext(ctx, s.args[0], args...)
+			// never leave a solver behind when govc itself is killed
+			cmd.SysProcAttr = &syscall.SysProcAttr{Pdeathsig: syscall.SIGKILL}
 			var out bytes.Buffer
 			cmd.Stdout = &out
 			cmd.Stderr = &out
@@ -333,6 +338,7 @@ const preambleSeq = `(set-option :produce-models true)
 (define-fun slen ((s Str)) Int (str.len s))
 (define-fun at ((s Str) (i Int)) Int (str.to_code (str.at s i)))
 (define-fun wfstr ((s Str)) Bool (str.in_re s (re.* (re.range "\u{0}" "\u{ff}"))))
+(define-fun nonl ((s Str)) Bool (not (str.contains s "\\u{a}")))
 (define-fun sat_ ((l SL) (i Int)) Str (select (items l) i))
 (define-fun wfsl ((l SL)) Bool (>= (sllen l) 0))
 (define-fun wfil ((l IL)) Bool (>= (illen l) 0))
@@ -348,9 +354,9 @@ const preambleSeq = `(set-option :produce-models true)
   :pattern ((slsub s lo hi)))))
 (declare-fun slcat (SL SL) SL)
 (assert (forall ((a SL) (b SL)) (! (and (= (sllen (slcat a b)) (+ (sllen a) (sllen b)))
-  (forall ((i Int)) (! (and (=> (and (<= 0 i) (< i (sllen a))) (= (select (items (slcat a b)) i) (select (items a) i)))
+  (=> (and (>= (sllen a) 0) (>= (sllen b) 0)) (forall ((i Int)) (! (and (=> (and (<= 0 i) (< i (sllen a))) (= (select (items (slcat a b)) i) (select (items a) i)))
                             (=> (and (<= (sllen a) i) (< i (+ (sllen a) (sllen b)))) (= (select (items (slcat a b)) i) (select (items b) (- i (sllen a))))))
-     :pattern ((select (items (slcat a b)) i)))))
+     :pattern ((select (items (slcat a b)) i))))))
   :pattern ((slcat a b)))))
 (define-fun gomod ((a Int) (b Int)) Int (ite (>= a 0) (mod a (ite (>= b 0) b (- b))) (- (mod (- a) (ite (>= b 0) b (- b))))))
 (define-fun godiv ((a Int) (b Int)) Int (ite (>= a 0) (ite (> b 0) (div a b) (- (div a (- b)))) (ite (> b 0) (- (div (- a) b)) (div (- a) (- b)))))
